@@ -489,9 +489,21 @@ func runR175(c *Ctx) {
 							ev = bo.Y
 						}
 						deepSlice(fn, ev, func(v ssa.Value) bool {
-							if cl, ok := v.(*ssa.Call); ok && cl.Call.IsInvoke() && cl.Call.Method.Name() == "ReplicateMultiple" {
-								okVal = true
-								return false
+							if cl, ok := v.(*ssa.Call); ok {
+								if cl.Call.IsInvoke() && cl.Call.Method.Name() == "ReplicateMultiple" {
+									okVal = true
+									return false
+								}
+								// the attempt may live in an own helper method
+								if h := inlineOwnMethods(cl); h != nil {
+									withOwnHelpers(h, func(g *ssa.Function) {
+										allInstrs(g, func(i2 ssa.Instruction) {
+											if c2, ok := i2.(*ssa.Call); ok && c2.Call.IsInvoke() && c2.Call.Method.Name() == "ReplicateMultiple" {
+												okVal = true
+											}
+										})
+									})
+								}
 							}
 							return !okVal
 						})
